@@ -286,7 +286,403 @@ Proof.
   constructor; [constructor|]; simpl; apply Reqb_true; ring.
 Qed.
 
+(** ** Points *)
+Section Points.
+  Context {T : Type} (N : NumOps T).
+  Notation pt := (point T).
+
+  Lemma lookup_cons j k v (r : pt) :
+    lookup j ((k, v) :: r) = if Pos.eqb j k then Some v else lookup j r.
+  Proof. reflexivity. Qed.
+
+  Lemma lookup_In k v (p : pt) : lookup k p = Some v -> In (k, v) p.
+  Proof.
+    induction p as [|[y w] r IH]; [discriminate|].
+    rewrite lookup_cons. destruct (Pos.eqb_spec k y) as [->|Hne].
+    - intros HH; injection HH as ->; left; reflexivity.
+    - intros HH; right; auto.
+  Qed.
+
+  Lemma lookup_None k (p : pt) : lookup k p = None <-> ~ In k (map fst p).
+  Proof.
+    induction p as [|[y w] r IH].
+    - simpl; tauto.
+    - rewrite lookup_cons. simpl map. destruct (Pos.eqb_spec k y) as [->|Hne].
+      + split; [discriminate | intros HH; exfalso; apply HH; left; reflexivity].
+      + rewrite IH. simpl. split.
+        * intros H1 [H2|H2]; [congruence|auto].
+        * intros H1 H2; apply H1; auto.
+  Qed.
+
+  Lemma In_lookup k v (p : pt) : NoDup (map fst p) -> In (k, v) p -> lookup k p = Some v.
+  Proof.
+    induction p as [|[y w] r IH]; [simpl; tauto|].
+    intros Hnd; simpl map in Hnd; inversion Hnd as [|y' r' Hy Hr]; subst.
+    rewrite lookup_cons. intros [Heq|Hin].
+    - injection Heq as -> ->. rewrite Pos.eqb_refl; reflexivity.
+    - destruct (Pos.eqb_spec k y) as [->|Hne].
+      + exfalso; apply Hy. apply (in_map fst) in Hin; exact Hin.
+      + auto.
+  Qed.
+
+  Lemma lookup_Some_key k v (p : pt) : lookup k p = Some v -> In k (map fst p).
+  Proof. intros HH; apply lookup_In in HH; apply (in_map fst) in HH; exact HH. Qed.
+
+  Lemma key_lookup k (p : pt) : In k (map fst p) -> exists v, lookup k p = Some v.
+  Proof.
+    destruct (lookup k p) as [v|] eqn:E; [eauto|].
+    apply lookup_None in E; tauto.
+  Qed.
+
+  Lemma lookup_perm k (p q : pt) :
+    NoDup (map fst p) -> Permutation p q -> lookup k p = lookup k q.
+  Proof.
+    intros Hp Hpq.
+    assert (Hq : NoDup (map fst q))
+      by (eapply Permutation_NoDup; [apply Permutation_map; exact Hpq | exact Hp]).
+    destruct (lookup k p) as [v|] eqn:Ep.
+    - symmetry. apply In_lookup; auto.
+      eapply Permutation_in; [exact Hpq|]. apply lookup_In; exact Ep.
+    - symmetry. apply lookup_None. apply lookup_None in Ep.
+      intros Hin; apply Ep.
+      eapply Permutation_in; [apply Permutation_map; symmetry; exact Hpq | exact Hin].
+  Qed.
+
+  Lemma point_eqb_spec (p q : pt) :
+    point_eqb N p q = true <->
+    List.length p = List.length q /\
+    forall k v, In (k, v) p -> exists w, lookup k q = Some w /\ neqb N v w = true.
+  Proof.
+    unfold point_eqb. rewrite andb_true_iff, Nat.eqb_eq, forallb_forall.
+    split; intros [H1 H2]; split; auto.
+    - intros k v Hin. specialize (H2 _ Hin); simpl in H2.
+      destruct (lookup k q) as [w|]; [eauto|discriminate].
+    - intros [k v] Hin; simpl. destruct (H2 k v Hin) as (w & -> & Hw); exact Hw.
+  Qed.
+
+  Lemma same_coords_incl (p q : pt) :
+    same_coords N p q -> incl (map fst p) (map fst q).
+  Proof.
+    intros Hsc k Hk. destruct (key_lookup k p Hk) as (v & Hv).
+    specialize (Hsc k). rewrite Hv in Hsc.
+    destruct (lookup k q) as [w|] eqn:Eq; [|contradiction].
+    eapply lookup_Some_key; eauto.
+  Qed.
+
+  Lemma point_eq_gen (p q : pt) :
+    NoDup (map fst p) -> NoDup (map fst q) ->
+    (point_eqb N p q = true <-> same_coords N p q).
+  Proof.
+    intros Hp Hq. rewrite point_eqb_spec. split.
+    - intros [Hlen HP].
+      assert (Hincl : incl (map fst p) (map fst q)).
+      { intros k Hk. destruct (key_lookup k p Hk) as (v & Hv). apply lookup_In in Hv.
+        destruct (HP k v Hv) as (w & Hw & _). eapply lookup_Some_key; eauto. }
+      assert (Hincl' : incl (map fst q) (map fst p)).
+      { apply NoDup_length_incl; auto. rewrite !map_length; lia. }
+      intros k. destruct (lookup k p) as [v|] eqn:Ep.
+      + apply lookup_In in Ep. destruct (HP k v Ep) as (w & -> & Hw); exact Hw.
+      + destruct (lookup k q) as [w|] eqn:Eq; [|exact I].
+        apply lookup_Some_key in Eq. apply Hincl' in Eq. apply lookup_None in Ep. auto.
+    - intros Hsc. split.
+      + assert (H1 : incl (map fst p) (map fst q)) by (apply same_coords_incl; exact Hsc).
+        assert (H2 : incl (map fst q) (map fst p)).
+        { intros k Hk. destruct (key_lookup k q Hk) as (w & Hw).
+          specialize (Hsc k). rewrite Hw in Hsc.
+          destruct (lookup k p) as [v|] eqn:Ep; [|contradiction].
+          eapply lookup_Some_key; eauto. }
+        apply NoDup_incl_length in H1; auto. apply NoDup_incl_length in H2; auto.
+        rewrite !map_length in *. lia.
+      + intros k v Hin. apply In_lookup in Hin; auto.
+        specialize (Hsc k). rewrite Hin in Hsc.
+        destruct (lookup k q) as [w|]; [eauto|contradiction].
+  Qed.
+
+  (** sorting the coordinates *)
+  Lemma insert_coord_perm kv (l : pt) : Permutation (kv :: l) (insert_coord kv l).
+  Proof.
+    induction l as [|kw r IH]; simpl; [apply Permutation_refl|].
+    destruct (Pos.leb (fst kv) (fst kw)); [apply Permutation_refl|].
+    eapply perm_trans; [apply perm_swap|]. apply perm_skip; exact IH.
+  Qed.
+
+  Lemma sort_coords_cons kv (r : pt) : sort_coords (kv :: r) = insert_coord kv (sort_coords r).
+  Proof. reflexivity. Qed.
+
+  Lemma sort_coords_perm (p : pt) : Permutation p (sort_coords p).
+  Proof.
+    induction p as [|kv r IH]; [apply Permutation_refl|].
+    rewrite sort_coords_cons.
+    eapply perm_trans; [|apply insert_coord_perm]. apply perm_skip; exact IH.
+  Qed.
+
+  Definition ltk (a b : name * T) : Prop := (fst a < fst b)%positive.
+
+  Lemma insert_coord_sorted kv (l : pt) :
+    ~ In (fst kv) (map fst l) -> StronglySorted ltk l -> StronglySorted ltk (insert_coord kv l).
+  Proof.
+    induction l as [|kw r IH]; simpl; intros Hnin Hs.
+    - constructor; constructor.
+    - inversion Hs as [|kw' r' Hsr Hall]; subst.
+      destruct (Pos.leb_spec (fst kv) (fst kw)) as [Hle|Hlt].
+      + assert (Hlt : ltk kv kw).
+        { unfold ltk. destruct (Pos.eq_dec (fst kv) (fst kw)) as [e|ne];
+            [exfalso; apply Hnin; left; symmetry; exact e | lia]. }
+        constructor; [exact Hs|]. constructor; [exact Hlt|].
+        eapply Forall_impl; [|exact Hall]. unfold ltk in *; intros a Ha; lia.
+      + constructor.
+        * apply IH; auto.
+        * eapply Permutation_Forall; [apply insert_coord_perm|].
+          constructor; [exact Hlt|exact Hall].
+  Qed.
+
+  Lemma sort_coords_sorted (p : pt) :
+    NoDup (map fst p) -> StronglySorted ltk (sort_coords p).
+  Proof.
+    induction p as [|kv r IH]; intros Hnd.
+    - constructor.
+    - simpl map in Hnd; inversion Hnd as [|k' r' Hk Hr]; subst.
+      rewrite sort_coords_cons. apply insert_coord_sorted; auto.
+      intros Hin; apply Hk.
+      eapply Permutation_in; [apply Permutation_map; symmetry; apply sort_coords_perm | exact Hin].
+  Qed.
+
+  Lemma sorted_tail_None kv (r : pt) : Forall (ltk kv) r -> lookup (fst kv) r = None.
+  Proof.
+    intros Hall. apply lookup_None. intros Hin.
+    apply in_map_iff in Hin; destruct Hin as (kw & Hk & Hin).
+    rewrite Forall_forall in Hall. specialize (Hall _ Hin). unfold ltk in Hall. lia.
+  Qed.
+
+  (** two key-sorted coordinate lists denoting the same dictionary agree position by position *)
+  Definition kv_rel (a b : name * T) : Prop :=
+    fst a = fst b /\ neqb N (snd a) (snd b) = true.
+
+  Lemma sorted_head_le k k' w (r2 : pt) :
+    Forall (ltk (k', w)) r2 ->
+    (exists u, lookup k ((k', w) :: r2) = Some u) -> (k' <= k)%positive.
+  Proof.
+    intros Ha2 (u & Hu). rewrite lookup_cons in Hu.
+    destruct (Pos.eqb_spec k k') as [->|Hne]; [lia|].
+    apply lookup_In in Hu. rewrite Forall_forall in Ha2. specialize (Ha2 _ Hu).
+    unfold ltk in Ha2; simpl in Ha2; lia.
+  Qed.
+
+  Lemma sorted_same (s1 : pt) : forall s2 : pt,
+    StronglySorted ltk s1 -> StronglySorted ltk s2 -> same_coords N s1 s2 ->
+    Forall2 kv_rel s1 s2.
+  Proof.
+    induction s1 as [|[k v] r1 IH]; intros s2 H1 H2 Hsc.
+    - destruct s2 as [|[k' w] r2]; [constructor|].
+      specialize (Hsc k'). rewrite lookup_cons, Pos.eqb_refl in Hsc. simpl in Hsc; contradiction.
+    - destruct s2 as [|[k' w] r2].
+      { specialize (Hsc k). rewrite lookup_cons, Pos.eqb_refl in Hsc. simpl in Hsc; contradiction. }
+      inversion H1 as [|kv1 r1' Hs1 Ha1]; inversion H2 as [|kv2 r2' Hs2 Ha2]; subst.
+      assert (Hkk : k = k').
+      { assert (Hle1 : (k' <= k)%positive).
+        { apply (sorted_head_le k k' w r2 Ha2).
+          pose proof (Hsc k) as Hk. rewrite (lookup_cons k k v), Pos.eqb_refl in Hk.
+          destruct (lookup k ((k', w) :: r2)) as [u|]; [eauto|contradiction]. }
+        assert (Hle2 : (k <= k')%positive).
+        { apply (sorted_head_le k' k v r1 Ha1).
+          pose proof (Hsc k') as Hk. rewrite (lookup_cons k' k' w), Pos.eqb_refl in Hk.
+          destruct (lookup k' ((k, v) :: r1)) as [u|]; [eauto|contradiction]. }
+        lia. }
+      subst k'. constructor.
+      + split; [reflexivity|]. specialize (Hsc k).
+        rewrite !lookup_cons, Pos.eqb_refl in Hsc. exact Hsc.
+      + apply IH; auto. intros j. destruct (Pos.eqb_spec j k) as [->|Hne].
+        * pose proof (sorted_tail_None (k, v) r1 Ha1) as E1.
+          pose proof (sorted_tail_None (k, w) r2 Ha2) as E2.
+          simpl fst in E1, E2. rewrite E1, E2. exact I.
+        * specialize (Hsc j). rewrite !lookup_cons in Hsc.
+          rewrite (proj2 (Pos.eqb_neq j k) Hne) in Hsc. exact Hsc.
+  Qed.
+
+  Lemma sort_coords_same (p q : pt) :
+    NoDup (map fst p) -> NoDup (map fst q) -> same_coords N p q ->
+    Forall2 kv_rel (sort_coords p) (sort_coords q).
+  Proof.
+    intros Hp Hq Hsc. apply sorted_same.
+    - apply sort_coords_sorted; exact Hp.
+    - apply sort_coords_sorted; exact Hq.
+    - intros k.
+      rewrite <- (lookup_perm k p (sort_coords p) Hp (sort_coords_perm p)).
+      rewrite <- (lookup_perm k q (sort_coords q) Hq (sort_coords_perm q)).
+      apply Hsc.
+  Qed.
+
+  Section HashP.
+    Context {H : Type}.
+    Variable h_str : string -> H.
+    Variable h_name : name -> H.
+    Variable h_num : T -> H.
+    Variable h_tuple : list H -> H.
+    Hypothesis Hnum : forall x y, neqb N x y = true -> h_num x = h_num y.
+
+    Lemma point_hash_gen (p q : pt) :
+      NoDup (map fst p) -> NoDup (map fst q) -> point_eqb N p q = true ->
+      hash_point h_str h_name h_num h_tuple p = hash_point h_str h_name h_num h_tuple q.
+    Proof.
+      intros Hp Hq Heq. apply (point_eq_gen p q Hp Hq) in Heq.
+      pose proof (sort_coords_same p q Hp Hq Heq) as HF.
+      unfold hash_point.
+      assert (HM : map (fun kv : name * T => h_tuple [h_name (fst kv); h_num (snd kv)]) (sort_coords p) =
+                   map (fun kv : name * T => h_tuple [h_name (fst kv); h_num (snd kv)]) (sort_coords q)).
+      { induction HF as [|a b l l' Hab Hl IH]; [reflexivity|].
+        destruct Hab as [Hk Hv]. simpl. rewrite Hk, (Hnum _ _ Hv), IH; reflexivity. }
+      rewrite HM; reflexivity.
+    Qed.
+  End HashP.
+
+  (** [same_coords] is an equivalence when the number comparison is *)
+  Hypothesis Hequiv : num_equiv N.
+
+  Lemma same_coords_refl (p : pt) : same_coords N p p.
+  Proof. intros k. destruct (lookup k p); [apply (proj1 Hequiv)|exact I]. Qed.
+
+  Lemma same_coords_sym (p q : pt) : same_coords N p q -> same_coords N q p.
+  Proof.
+    intros Hsc k. specialize (Hsc k).
+    destruct (lookup k p), (lookup k q); auto.
+    rewrite (proj1 (proj2 Hequiv)); exact Hsc.
+  Qed.
+
+  Lemma same_coords_trans (p q r : pt) :
+    same_coords N p q -> same_coords N q r -> same_coords N p r.
+  Proof.
+    intros H1 H2 k. specialize (H1 k); specialize (H2 k).
+    destruct (lookup k p), (lookup k q), (lookup k r); auto; try contradiction.
+    eapply (proj2 (proj2 Hequiv)); eauto.
+  Qed.
+
+  Lemma point_eqb_refl (p : pt) : NoDup (map fst p) -> point_eqb N p p = true.
+  Proof. intros Hp. apply (point_eq_gen p p Hp Hp). apply same_coords_refl. Qed.
+
+  Lemma point_eqb_sym (p q : pt) :
+    NoDup (map fst p) -> NoDup (map fst q) -> point_eqb N p q = point_eqb N q p.
+  Proof.
+    intros Hp Hq. apply eq_true_iff_eq.
+    rewrite (point_eq_gen p q Hp Hq), (point_eq_gen q p Hq Hp).
+    split; apply same_coords_sym.
+  Qed.
+
+  Lemma point_eqb_trans (p q r : pt) :
+    NoDup (map fst p) -> NoDup (map fst q) -> NoDup (map fst r) ->
+    point_eqb N p q = true -> point_eqb N q r = true -> point_eqb N p r = true.
+  Proof.
+    intros Hp Hq Hr.
+    rewrite (point_eq_gen p q Hp Hq), (point_eq_gen q r Hq Hr), (point_eq_gen p r Hp Hr).
+    apply same_coords_trans.
+  Qed.
+
+  Lemma point_perm_gen (p q : pt) :
+    NoDup (map fst p) -> Permutation p q -> point_eqb N p q = true.
+  Proof.
+    intros Hp Hpq.
+    assert (Hq : NoDup (map fst q))
+      by (eapply Permutation_NoDup; [apply Permutation_map; exact Hpq | exact Hp]).
+    apply (point_eq_gen p q Hp Hq). intros k.
+    rewrite <- (lookup_perm k p q Hp Hpq). apply same_coords_refl.
+  Qed.
+End Points.
+
+Theorem point_eq : C12_point_eq.
+Proof.
+  unfold C12_point_eq, wf_point; intros T N HN p q Hp Hq. apply point_eq_gen; assumption.
+Qed.
+
+Theorem point_perm : C12_point_perm.
+Proof.
+  unfold C12_point_perm, wf_point; intros T N HN p q Hp Hpq. apply point_perm_gen; assumption.
+Qed.
+
+Theorem point_hash : C12_point_hash.
+Proof.
+  unfold C12_point_hash, wf_point; intros T N H h_str h_name h_num h_tuple HN Hnum p q Hp Hq Heq.
+  apply (point_hash_gen N); assumption.
+Qed.
+
+(** ** All objects *)
+Theorem py_eq_equivalence : C12_py_eq_equivalence.
+Proof.
+  unfold C12_py_eq_equivalence; intros T N HN; split; [|split].
+  - intros a Ha; destruct a as [e|p|e v|e|e|e p|k]; simpl in *.
+    + apply eqb_refl; exact HN.
+    + apply point_eqb_refl; assumption.
+    + rewrite (eqb_refl N HN). unfold name_eqb; rewrite Pos.eqb_refl; reflexivity.
+    + apply eqb_refl; exact HN.
+    + apply eqb_refl; exact HN.
+    + rewrite (eqb_refl N HN), (point_eqb_refl N HN p Ha); reflexivity.
+    + apply Nat.eqb_refl.
+  - intros a b Ha Hb;
+      destruct a as [e|p|e v|e|e|e p|k]; destruct b as [e'|p'|e' v'|e'|e'|e' p'|k'];
+      simpl in *; try reflexivity.
+    + apply eqb_sym; exact HN.
+    + apply point_eqb_sym; assumption.
+    + rewrite (eqb_sym N HN e e'). unfold name_eqb; rewrite (Pos.eqb_sym v v'); reflexivity.
+    + apply eqb_sym; exact HN.
+    + apply eqb_sym; exact HN.
+    + rewrite (eqb_sym N HN e e'), (point_eqb_sym N HN p p' Ha Hb); reflexivity.
+    + apply Nat.eqb_sym.
+  - intros a b c Ha Hb Hc;
+      destruct a as [e|p|e v|e|e|e p|k]; destruct b as [e'|p'|e' v'|e'|e'|e' p'|k'];
+      simpl in *; try discriminate;
+      destruct c as [e''|p''|e'' v''|e''|e''|e'' p''|k'']; simpl in *; try discriminate.
+    + apply eqb_trans; exact HN.
+    + intros H1 H2. eapply (point_eqb_trans N HN p'' p' p); eauto.
+    + rewrite !andb_true_iff. unfold name_eqb; rewrite !Pos.eqb_eq.
+      intros [H1 H2] [H3 H4]; split; [eapply eqb_trans; eauto | congruence].
+    + apply eqb_trans; exact HN.
+    + apply eqb_trans; exact HN.
+    + rewrite !andb_true_iff.
+      intros [H1 H2] [H3 H4]; split;
+        [eapply eqb_trans; eauto | eapply (point_eqb_trans N HN p p' p''); eauto].
+    + rewrite !Nat.eqb_eq; congruence.
+Qed.
+
+Theorem py_eq_hash : C12_py_eq_hash.
+Proof.
+  unfold C12_py_eq_hash;
+    intros T N H h_str h_name h_num h_pos h_nat h_tuple HN Hnum a b Ha Hb;
+    destruct a as [e|p|e v|e|e|e p|k]; destruct b as [e'|p'|e' v'|e'|e'|e' p'|k'];
+    simpl in *; try discriminate.
+  - intros HH. rewrite (eqb_hash_gen N h_str h_name h_num h_pos h_nat h_tuple Hnum e e' HH).
+    reflexivity.
+  - intros HH. rewrite (point_hash_gen N h_str h_name h_num h_tuple Hnum p' p Hb Ha HH).
+    reflexivity.
+  - rewrite andb_true_iff; intros [HH _].
+    rewrite (eqb_hash_gen N h_str h_name h_num h_pos h_nat h_tuple Hnum e e' HH). reflexivity.
+  - intros HH. rewrite (eqb_hash_gen N h_str h_name h_num h_pos h_nat h_tuple Hnum e e' HH).
+    reflexivity.
+  - intros HH. rewrite (eqb_hash_gen N h_str h_name h_num h_pos h_nat h_tuple Hnum e e' HH).
+    reflexivity.
+  - rewrite andb_true_iff; intros [HH HP].
+    rewrite (eqb_hash_gen N h_str h_name h_num h_pos h_nat h_tuple Hnum e e' HH).
+    rewrite (point_hash_gen N h_str h_name h_num h_tuple Hnum p p' Ha Hb HP). reflexivity.
+  - intros _; reflexivity.
+Qed.
+
+(* non-vacuity: Point(x=1, y=2) == Point(y=2, x=1) at R, and a sorted view *)
+Example point_ex :
+  let p := [(1%positive, 1%R); (2%positive, 2%R)] in
+  let q := [(2%positive, 2%R); (1%positive, 1%R)] in
+  wf_point p /\ wf_point q /\ point_eqb RInst p q = true /\ sort_coords q = p.
+Proof.
+  simpl; unfold wf_point; simpl. repeat split.
+  - repeat constructor; simpl; intuition discriminate.
+  - repeat constructor; simpl; intuition discriminate.
+  - apply (point_perm R RInst RInst_equiv).
+    + unfold wf_point; simpl. repeat constructor; simpl; intuition discriminate.
+    + apply perm_swap.
+Qed.
+
 Print Assumptions RInst_equiv.
 Print Assumptions eqb_structural.
 Print Assumptions eqb_equivalence.
 Print Assumptions eqb_hash.
+Print Assumptions point_eq.
+Print Assumptions point_perm.
+Print Assumptions point_hash.
+Print Assumptions py_eq_equivalence.
+Print Assumptions py_eq_hash.
